@@ -203,11 +203,22 @@ pub fn main(args: &[String]) -> i32 {
         }
     };
     let mut out = std::io::BufWriter::new(f);
+    std::panic::set_hook(Box::new(|_| {}));
     for i in 0..execs {
         let mode = if i % 2 == 0 { Mode::Trie } else { Mode::State };
-        if let Err(e) = record_one(&mut out, seed.wrapping_mul(1000003).wrapping_add(i), nops, mode) {
-            eprintln!("write error: {}", e);
-            return 2;
+        let r = std::panic::catch_unwind(std::panic::AssertUnwindSafe(|| {
+            record_one(&mut out, seed.wrapping_mul(1000003).wrapping_add(i), nops, mode)
+        }));
+        match r {
+            Ok(Ok(())) => {}
+            Ok(Err(e)) => {
+                eprintln!("write error: {}", e);
+                return 2;
+            }
+            Err(p) => {
+                // a panic of the code under test is data: it becomes an event no spec action explains
+                let _ = writeln!(out, "{}", json!({"a": "panic", "msg": panic_message(p), "r": ["panic"], "m": []}));
+            }
         }
     }
     0
